@@ -239,6 +239,101 @@ theorem saveAll_strs (lower : Bool) (vs : List Str) (o : Opt) (old : List Str)
     rw [ih { o with value := .ss (old ++ [v]) } (old ++ [v]) hk rfl hg]
     simp
 
+/-- `Save` of a float slice, one value after another, appends the texts that convert -/
+theorem saveAll_flts (lower : Bool) (vs : List Str) (o : Opt) (old : List Str)
+    (hk : o.kind = .flts) (hv : o.value = .fs old) (hg : o.validValues = [])
+    (hok : ∀ v ∈ vs, ext.floatOk v = true) :
+    saveAll ext lower o vs = .ok { o with value := .fs (old ++ vs) } := by
+  induction vs generalizing o old with
+  | nil => simp [saveAll, ← hv]
+  | cons v r ih =>
+    have h1 : save ext lower o [v] = .ok { o with value := .fs (old ++ [v]) } :=
+      save_flts ext lower o old [v] hk hv (by simp) (by simp [validGate, hg]) (fun a ha => by
+        have : a = v := by simpa using ha
+        subst this; exact hok a (by simp))
+    simp only [saveAll, h1]
+    rw [ih { o with value := .fs (old ++ [v]) } (old ++ [v]) hk rfl hg (fun a ha => hok a (by simp [ha]))]
+    simp
+
+/-- the numbers an int-slice occurrence contributes: each value is a number or an ascending range -/
+def intsOf : List Str → Option (List Int)
+  | [] => some []
+  | v :: r =>
+    match convIntArg [] v, intsOf r with
+    | .ok l, some rest => some (l ++ rest)
+    | _, _ => none
+
+theorem convIntArg_ok_alias (u u' e : Str) (l : List Int) (h : convIntArg u e = .ok l) : convIntArg u' e = .ok l := by
+  unfold convIntArg at h ⊢
+  split
+  · rename_i n1 n2 hsp
+    rw [hsp] at h
+    simp only at h
+    split
+    · rename_i i1 i2 h1 h2
+      rw [h1, h2] at h
+      simp only at h
+      split
+      · rename_i hlt; simp only [hlt, ↓reduceIte] at h; exact h
+      · rename_i hlt; simp only [hlt, ↓reduceIte] at h; cases h
+    · rename_i hnot
+      split at h
+      · rename_i i1 i2 h1 h2; exact (hnot i1 i2 h1 h2).elim
+      · cases h
+  · rename_i hsp
+    rw [hsp] at h
+    simp only at h
+    split
+    · rename_i i hi; rw [hi] at h; exact h
+    · rename_i hi; rw [hi] at h; cases h
+
+/-- `Save` of an int slice, one value after another, appends the numbers and expanded ranges in order -/
+theorem saveAll_ints (lower : Bool) (vs : List Str) (o : Opt) (old nums : List Int)
+    (hk : o.kind = .ints) (hv : o.value = .is old) (hg : o.validValues = [])
+    (hn : intsOf vs = some nums) :
+    saveAll ext lower o vs = .ok { o with value := .is (old ++ nums) } := by
+  induction vs generalizing o old nums with
+  | nil => simp only [intsOf, Option.some.injEq] at hn; subst hn; simp [saveAll, ← hv]
+  | cons v r ih =>
+    simp only [intsOf] at hn
+    cases hc : convIntArg [] v with
+    | error e => rw [hc] at hn; simp at hn
+    | ok l =>
+      cases hr : intsOf r with
+      | none => rw [hc, hr] at hn; simp at hn
+      | some rest =>
+        rw [hc, hr] at hn
+        simp only [Option.some.injEq] at hn
+        subst hn
+        have h1 : save ext lower o [v] = .ok { o with value := .is (old ++ l) } := by
+          rw [save_ints_one ext lower o old v hk hv (by simp [validGate, hg]),
+            convIntArg_ok_alias [] o.usedAlias v l hc]
+        simp only [saveAll, h1]
+        rw [ih { o with value := .is (old ++ l) } (old ++ l) rest hk rfl hg hr]
+        simp
+
+/-- `Save` of a map, one `key=value` after another, is the fold of the whole list: later keys overwrite earlier
+ones, keys are lower-cased when the flag says so -/
+theorem saveAll_map (lower : Bool) (vs : List Str) (o : Opt) (old m' : List (Str × Str))
+    (hk : o.kind = .map) (hv : o.value = .m old) (hg : o.validValues = [])
+    (hm : saveMapArgs ext lower o.usedAlias old vs = .ok m') :
+    saveAll ext lower o vs = .ok { o with value := .m m' } := by
+  induction vs generalizing o old with
+  | nil => simp only [saveMapArgs, Except.ok.injEq] at hm; subst hm; simp [saveAll, ← hv]
+  | cons e r ih =>
+    simp only [saveMapArgs] at hm
+    split at hm
+    · rename_i k v hsp
+      have h1 : save ext lower o [e] =
+          .ok { o with value := .m (insertKV (if lower then ext.toLower k else k) v old) } := by
+        simp [save, hk, hv, validGate, hg, saveMapArgs, hsp, bind, Except.bind, pure, Except.pure]
+      simp only [saveAll, h1]
+      rw [ih { o with value := .m (insertKV (if lower then ext.toLower k else k) v old) } _ hk rfl hg hm]
+    · cases hm
+
+example : intsOf [b "1", b "3..5", b "-2"] = some [1, 3, 4, 5, -2] := by decide
+
+
 /-- **The values of one occurrence reach the option in command-line order, whatever surrounds it.**
 `argv = pre ++ ["--name", v₁, …, vₖ] ++ post`: the parser is at a head position after `pre`; `name` resolves
 (exactly, by alias or unique abbreviation) to the slice or map option `oid`; `min ≤ k ≤ max`; every `vᵢ` is
